@@ -9,9 +9,11 @@ import (
 	"hash/fnv"
 	"os"
 	"path/filepath"
+	"regexp"
 	"runtime"
 	"runtime/debug"
 	"sort"
+	"strconv"
 	"strings"
 	"sync"
 	"testing"
@@ -290,6 +292,7 @@ func Run[S any](t *testing.T, prop, sub string, gen func(*rapid.T) S, run func(S
 
 	exec := func(sc S, scJSON []byte) error {
 		journal(prop, sub, scJSON)
+		setCurrentCase(prop, sub, scJSON)
 		res, err := Protect(func() (Result, error) { return run(sc) })
 		if err == nil {
 			st.record(scJSON, sc, res)
@@ -427,9 +430,149 @@ func Scale(q, th int) int {
 // BubbleLinger is the virtual time the root goroutine lingers after the scenario so that sleeping goroutines can exit.
 var BubbleLinger = 10 * time.Minute
 
+// ---- wedged bubbles ----
+//
+// A goroutine queued on a sync.Mutex / sync.RWMutex is not "durably blocked" for synctest: when every other
+// goroutine of the bubble is blocked too, the bubble is never idle, its clock never advances, synctest.Wait never
+// returns - the bubble is wedged for good. On a tree where locks are only held briefly this never happens; it
+// happens when the code under test queues on a lock whose holder waits for the network (or for the clock). The
+// watchdog below (a goroutine outside the bubble, real time) recognises that state from two identical goroutine
+// dumps and asks the check's wedge oracle - a function judging only what the property states, evaluated on the
+// harness' own bookkeeping - for the verdict. Without an oracle, or when a goroutine of the code under test is
+// sleeping on the (stopped) clock, the run is inconclusive. Either way the process ends: the bubble cannot be unwound.
+
+var (
+	wedgeMu    sync.Mutex
+	wedgeCheck func() error
+	curProp    string
+	curSub     string
+	curJSON    []byte
+)
+
+// SetWedgeCheck registers the oracle consulted when the current bubble turns out to be wedged. It must only read
+// harness bookkeeping that is safe to read while every goroutine of the bubble is blocked. Bubble clears it.
+func SetWedgeCheck(f func() error) {
+	wedgeMu.Lock()
+	wedgeCheck = f
+	wedgeMu.Unlock()
+}
+
+func setCurrentCase(prop, sub string, scJSON []byte) {
+	wedgeMu.Lock()
+	curProp, curSub, curJSON = prop, sub, scJSON
+	wedgeMu.Unlock()
+}
+
+var goroutineHeader = regexp.MustCompile(`^goroutine (\d+) \[([^\]]*)\]:`)
+
+type bubbleG struct {
+	id, state string
+	frames    []string // function names, innermost first
+	cloak     string   // innermost frame in the code under test ("" if none)
+}
+
+func bubbleGoroutines() []bubbleG {
+	buf := make([]byte, 16<<20)
+	n := runtime.Stack(buf, true)
+	var out []bubbleG
+	for _, blk := range strings.Split(string(buf[:n]), "\n\n") {
+		m := goroutineHeader.FindStringSubmatch(blk)
+		if m == nil || !strings.Contains(m[2], "synctest bubble") {
+			continue
+		}
+		g := bubbleG{id: m[1], state: strings.TrimSpace(strings.SplitN(m[2], ",", 2)[0])}
+		lines := strings.Split(blk, "\n")
+		for i := 1; i+1 < len(lines); i += 2 {
+			fn := lines[i]
+			if strings.HasPrefix(fn, "created by ") {
+				break
+			}
+			if j := strings.LastIndex(fn, "("); j > 0 {
+				fn = fn[:j]
+			}
+			file := strings.TrimSpace(lines[i+1])
+			g.frames = append(g.frames, fn)
+			if g.cloak == "" && strings.Contains(fn, "github.com/cbeuw/Cloak/") && !strings.Contains(fn, "/verifkit.") && !strings.Contains(file, "zz_verif_") {
+				g.cloak = fn + " (" + filepath.Base(strings.SplitN(file, " ", 2)[0]) + ")"
+			}
+		}
+		out = append(out, g)
+	}
+	sort.Slice(out, func(i, j int) bool { return out[i].id < out[j].id })
+	return out
+}
+
+func wedgeKey(gs []bubbleG) string {
+	var sb strings.Builder
+	for _, g := range gs {
+		sb.WriteString(g.id + "|" + g.state + "|" + strings.Join(g.frames, ";") + "\n")
+	}
+	return sb.String()
+}
+
+// wedged reports whether the running bubble is permanently stuck with a goroutine queued on a lock.
+func wedged() (bool, []bubbleG) {
+	a := bubbleGoroutines()
+	time.Sleep(2 * time.Second)
+	b := bubbleGoroutines()
+	if len(a) == 0 || wedgeKey(a) != wedgeKey(b) {
+		return false, nil
+	}
+	onLock := false
+	for _, g := range b {
+		if g.state == "running" || g.state == "runnable" || g.state == "syscall" || g.state == "IO wait" {
+			return false, nil
+		}
+		if strings.HasPrefix(g.state, "sync.Mutex.") || strings.HasPrefix(g.state, "sync.RWMutex.") {
+			onLock = true
+		}
+	}
+	return onLock, b
+}
+
+func wedgeSeconds() time.Duration {
+	if v, err := strconv.Atoi(os.Getenv("VERIF_WEDGE_SECONDS")); err == nil && v > 0 {
+		return time.Duration(v) * time.Second
+	}
+	return 20 * time.Second
+}
+
+func handleWedge(gs []bubbleG) {
+	var locks, sleepers []string
+	for _, g := range gs {
+		if strings.HasPrefix(g.state, "sync.Mutex.") || strings.HasPrefix(g.state, "sync.RWMutex.") {
+			locks = append(locks, fmt.Sprintf("goroutine %s queued on %s in %s", g.id, g.state, g.cloak))
+		}
+		if strings.HasPrefix(g.state, "sleep") && g.cloak != "" {
+			sleepers = append(sleepers, g.cloak)
+		}
+	}
+	wedgeMu.Lock()
+	chk, prop, sub, scJSON := wedgeCheck, curProp, curSub, curJSON
+	wedgeMu.Unlock()
+	summary := strings.Join(locks, "; ")
+	var verdict error
+	if chk != nil && len(sleepers) == 0 {
+		verdict = chk()
+	}
+	FlushStats()
+	if v, ok := verdict.(*Violation); ok && prop != "" {
+		v.Msg += " [the bubble is permanently stuck: " + summary + "]"
+		if v.Sig == "" {
+			v.Sig = "wedged"
+		}
+		p := writeFail(prop, sub, scJSON, v)
+		fmt.Printf("VERIF-VIOLATION property=%s sub=%s file=%s sig=%s: %v\n", prop, sub, p, sigOf(v), v)
+		os.Exit(1)
+	}
+	fmt.Printf("VERIF-HARNESS-ERROR property=%s sub=%s: bubble wedged (a goroutine queued on a lock stops the virtual clock), no verdict: %s; sleeping in the code under test: %v\n", prop, sub, summary, sleepers)
+	os.Exit(2)
+}
+
 // Bubble runs f inside a synctest bubble and converts a bubble failure (deadlock: goroutines left
 // blocked for ever when the root returns, or a panic in the root goroutine) into an error.
 func Bubble(t *testing.T, f func()) (err error) {
+	SetWedgeCheck(nil)
 	done := make(chan struct{})
 	go func() {
 		defer close(done)
@@ -450,8 +593,24 @@ func Bubble(t *testing.T, f func()) (err error) {
 			time.Sleep(BubbleLinger)
 		})
 	}()
-	<-done
-	return err
+	tm := time.NewTimer(wedgeSeconds())
+	defer tm.Stop()
+	for {
+		select {
+		case <-done:
+			return err
+		case <-tm.C:
+			if ok, gs := wedged(); ok {
+				select {
+				case <-done:
+					return err
+				default:
+				}
+				handleWedge(gs)
+			}
+			tm.Reset(5 * time.Second)
+		}
+	}
 }
 
 // ---- known findings ----
